@@ -448,7 +448,7 @@ def theorem_side(ctx):
                             "axioms: subset of propext, Classical.choice, Quot.sound (audited per theorem)",
                             "hand-written model tied to the code only by the correspondence run of this check"]}
     failures = []
-    ok, out = lean_build()
+    ok, out = lean_build(tuple(prop_modules) + ("grogdrv",))
     if not ok:
         failures.append({"theorem": "(lake build)", "reason": "lake build failed", "detail": out[-4000:]})
     else:
